@@ -65,7 +65,7 @@ BinInDomain(op, a, b) ==
       [] op \in {"floordiv", "mod", "divmod"} -> b # 0
       [] op = "pow" -> IF SecretCount THEN b >= 0 /\ b < 2 ^ BL ELSE b >= 0
       [] op = "lshift" -> IF SecretCount THEN b >= 0 /\ b < 2 ^ BL ELSE b >= 0
-      [] op = "rshift" -> a >= 0 /\ b >= 0 /\ (SecretCount => 2 ^ b < 2 ^ (BL - 1))
+      [] op = "rshift" -> a >= 0 /\ b >= 0 /\ (SecretCount => b < BL - 1)     \* i.e. 2^b < 2^(BL-1), without computing 2^31
       [] op \in LogicOps -> a >= 0 /\ b >= 0
       [] OTHER -> FALSE
 
@@ -110,7 +110,8 @@ InDomain ==
       [] E.op = "un" /\ Len(E.args) = 1 /\ Scalar(E.args) /\ A1.k = "int" ->
             FitsBL(A1.v) /\ (E.name = "invert" => A1.v >= 0) /\ (E.name = "abs" => -A1.v < 2 ^ (BL - 1))
       [] E.op = "un" /\ Len(E.args) = 1 /\ Scalar(E.args) /\ A1.k = "bool" -> E.name \in {"invert", "neg", "pos"}
-      [] E.op = "meth" /\ E.name \in {"check_zero", "check_nonzero", "check_positive"} /\ Len(E.args) = 1 /\ Scalar(E.args) -> FitsBL(A1.v)
+      \* (the receiver must be a traced integer: a plain Python int has no such method -- a type error of the program, not of the values)
+      [] E.op = "meth" /\ E.name \in {"check_zero", "check_nonzero", "check_positive"} /\ Len(E.args) = 1 /\ Scalar(E.args) -> A1.k = "int" /\ FitsBL(A1.v)
       [] E.op = "ite" /\ Len(E.args) = 3 /\ Scalar(E.args) -> A1.k = "bool"
       [] OTHER -> FALSE
 
